@@ -33,6 +33,47 @@ def evaluate(case):
     return [], ["nontrivial"], rb[1]
 
 
+# ---- base urls that carry a redirection hint, under the variations that do not touch the hint itself
+R_BASES = ["http://a.com/login?next=/home", "http://a.com/p?url=http%3A%2F%2Fb.com%2Fx", "http://youtube.com/redirect?q=b.com%2Fa",
+           "http://www.google.com/url?q=http%3A%2F%2Fb.com%2Fx", "http://x.cdn.ampproject.org/c/s/b.com/x", "http://a.com/p?x=1&u=https%3A%2F%2Fb.com"]
+R_TOGGLES = [("r_scheme", ["http://", "https://", "", "//", "HTTP://"]), ("r_auth", ["", "u:p@"]), ("r_sub", ["", "www.", "m."]),
+             ("r_port", ["", "default"]), ("r_hostcase", ["asis", "upper"]), ("r_wrap", ["", "left", "right"]), ("r_frag", ["", "#f"])]
+R_GRID = grid.Grid("redirect-bases", R_TOGGLES, free=[("r_base", R_BASES)] + OPTS)
+
+
+def r_build(case, toggled=True):
+    g = (lambda k, d: case.get(k, d)) if toggled else (lambda k, d: d)
+    base = case.get("r_base", R_BASES[0])
+    rest = base[len("http://"):]
+    host, sep, tail = rest.partition("/")
+    scheme = g("r_scheme", "http://")
+    if g("r_hostcase", "asis") == "upper":
+        host = host.upper()
+    host = g("r_sub", "") + host
+    port = ""
+    if g("r_port", "") == "default":
+        port = ":443" if scheme.lower() == "https://" else ":80"
+    url = scheme + g("r_auth", "") + host + port + sep + tail + g("r_frag", "")
+    w = g("r_wrap", "")
+    return ("  " + url) if w == "left" else (url + " \n" if w == "right" else url)
+
+
+def evaluate_rbucket(case):
+    nu = importlib.import_module("ural").normalize_url
+    base, var = r_build(case, False), r_build(case, True)
+    if var == base:
+        return [], ["trivial"], None
+    kw = KW[case.get("opts", "default")]
+    rb = core.guarded(nu, base, **kw)
+    if rb[0] != "ok":
+        return [], ["ood.base-raises"], None
+    rv = core.guarded(nu, var, **kw)
+    if rv[0] != "ok" or rv[1] != rb[1]:
+        return [(PROP + ".bucket", {"base": base, "normalized": rb[1]},
+                 {"variant": var, "normalized": rv[1] if rv[0] == "ok" else list(rv)})], ["nontrivial"], rb[1]
+    return [], ["nontrivial"], rb[1]
+
+
 def evaluate_redirect(case):
     m = importlib.import_module("ural")
     u = c15.build(case)
@@ -54,6 +95,8 @@ def evaluate_redirect(case):
 
 
 def judge(w):
+    if w.get("kind") == "rbucket":
+        return evaluate_rbucket(dict(R_GRID.default_case(), **w["case"]))[0]
     if w.get("kind") == "redirect":
         return evaluate_redirect(dict(c15.GRID.default_case(), **w["case"]))[0]
     g = the_grid("thorough")
@@ -68,6 +111,8 @@ def fails_fn(clause, w):
 
 
 def simplify(w):
+    if w.get("kind") == "rbucket":
+        return [dict(x, kind="rbucket") for x in R_GRID.wsimplify(w)]
     if w.get("kind") == "redirect":
         return [dict(x, kind="redirect") for x in c15.GRID.wsimplify(w)]
     return the_grid("thorough").wsimplify(w)
@@ -94,6 +139,9 @@ def run(chk):
                       shrink=(lambda case: dict(c15.GRID.wit(case), kind="redirect"), simplify, fails_fn))
     n2 = chk.cov["states"] - n1
     chk.clause(PROP + ".redirect", checked=n2, nontrivial=t2.get("redirects", 0))
+    f3, t3 = grid.run(chk, R_GRID, None, evaluate_rbucket, shrink=(lambda case: dict(R_GRID.wit(case), kind="rbucket"), simplify, fails_fn))
+    chk.rule.append("Redirect-carrying bases (6) x the full product of the variations that do not touch the hint (scheme, userinfo, www/m, "
+                    "default port, host case, surrounding whitespace, fragment) x 3 option vectors.")
     chk.add("transitions", n1 * 2 + n2 * 3)
     chk.add("evaluations", n1 + n2)
     chk.cov["bounds"] = {"toggle deviations d": d, "bases": nb, "irrelevant items": len(nvar.irrelevant_items(chk.tier))}
